@@ -28,6 +28,7 @@ func c06(c *Ctx) {
 	c06R5(c)
 	c06R6(c)
 	walSkipRule(c, "R7")
+	replayVotesRule(c, "R8")
 }
 
 // first call to a named callee
